@@ -269,26 +269,29 @@ theorem inv_run {cfg : Cfg} (wf : WF cfg) (evs : List Ev) :
 
 /-! ### the two logs are append-only (so "over the lifetime" is what `notified` records) -/
 
-def Grows (s s' : St) : Prop := s.reports <+: s'.reports ∧ s.notified <+: s'.notified
+/-- …and `raised` is sticky: nothing ever clears it, so `raised = false` at the end of a history
+    means no `close()` raised and the model never ran out of fuel anywhere in that history -/
+def Grows (s s' : St) : Prop :=
+  s.reports <+: s'.reports ∧ s.notified <+: s'.notified ∧ (s.raised = true → s'.raised = true)
 
-theorem Grows.refl (s : St) : Grows s s := ⟨List.prefix_refl _, List.prefix_refl _⟩
+theorem Grows.refl (s : St) : Grows s s := ⟨List.prefix_refl _, List.prefix_refl _, id⟩
 
 theorem Grows.trans {a b c : St} (h1 : Grows a b) (h2 : Grows b c) : Grows a c :=
-  ⟨List.IsPrefix.trans h1.1 h2.1, List.IsPrefix.trans h1.2 h2.2⟩
+  ⟨List.IsPrefix.trans h1.1 h2.1, List.IsPrefix.trans h1.2.1 h2.2.1, fun h => h2.2.2 (h1.2.2 h)⟩
 
 def Mono (k : St → St) : Prop := ∀ s, Grows s (k s)
 
 theorem reportWith_grows {cfg : Cfg} {k : St → St} (hk : Mono k) (s : St) (r : Report) :
     Grows s (reportWith cfg k s r) := by
   have h1 : Grows s { s with reports := s.reports ++ [r], callsMade := s.callsMade + 1 } :=
-    ⟨List.prefix_append _ _, List.prefix_refl _⟩
+    ⟨List.prefix_append _ _, List.prefix_refl _, id⟩
   unfold reportWith
   simp only []
   split
   · exact h1
   · split
     · exact h1.trans (hk _)
-    · refine (h1.trans (hk _)).trans ⟨List.prefix_refl _, List.prefix_append _ _⟩
+    · refine (h1.trans (hk _)).trans ⟨List.prefix_refl _, List.prefix_append _ _, id⟩
     · exact h1
 
 theorem foldl_reportWith_grows {cfg : Cfg} {k : St → St} (hk : Mono k) (i : Nat)
@@ -311,24 +314,27 @@ theorem closeProtos_grows {cfg : Cfg} {k : St → St} (hk : Mono k) (ps : List P
     have h1 : Grows s { s with closeLog := s.closeLog ++ [i] } := Grows.refl s
     have h2 := foldl_reportWith_grows (cfg := cfg) hk i p.onClose { s with closeLog := s.closeLog ++ [i] }
     refine (h1.trans h2).trans (Grows.trans ?_ (ih (i + 1) _))
-    exact ⟨List.prefix_refl _, List.prefix_refl _⟩
+    exact ⟨List.prefix_refl _, List.prefix_refl _, id⟩
 
 theorem closeF_grows (cfg : Cfg) : ∀ f, Mono (closeF cfg f) := by
   intro f
   induction f with
-  | zero => intro s; exact ⟨List.prefix_refl _, List.prefix_refl _⟩
+  | zero => intro s; exact ⟨List.prefix_refl _, List.prefix_refl _, fun _ => rfl⟩
   | succ f ih =>
     intro s
     rw [closeF]
     split
     · exact Grows.refl s
     · split
-      · exact ⟨List.prefix_refl _, List.prefix_refl _⟩
+      · exact ⟨List.prefix_refl _, List.prefix_refl _, fun _ => rfl⟩
       · have h := closeProtos_grows (cfg := cfg) ih cfg.protos 0
           { s with pushOn := false, pending := some s.nextId, nextId := s.nextId + 1, tasks := 1 }
         exact Grows.trans (b := closeProtos cfg (closeF cfg f) 0 cfg.protos
           { s with pushOn := false, pending := some s.nextId, nextId := s.nextId + 1, tasks := 1 })
-          h ⟨List.prefix_refl _, List.prefix_refl _⟩
+          h ⟨List.prefix_refl _, List.prefix_refl _, by
+            intro hr
+            unfold blockEverything
+            simp [hr]⟩
 
 theorem step_grows (cfg : Cfg) (s : St) (e : Ev) : Grows s (step cfg s e).1 := by
   cases e with
